@@ -329,6 +329,17 @@ func semMutants(sd seedDoc) []Body {
 					a, v := a, v
 					at(i, "bad-date", sem, func(m *xmltree.Node) { setAttr(m, a, v) })
 				}
+				// representatives of the calendar family (dateMutants has all)
+				for _, v := range []dateValue{
+					{"20230230T000000Z", "date-day", "day-the-month-lacks"}, {"20230431T120000Z", "date-day", "day-the-month-lacks"}, {"21000229T235959Z", "date-day", "day-the-month-lacks"},
+					{"20241301T000000Z", "date-field", "field-out-of-range"}, {"20240101T240000Z", "date-field", "field-out-of-range"}, {"20240100T000000Z", "date-field", "field-out-of-range"},
+				} {
+					a, v := a, v
+					if validDateTimeUTC(v.Val) {
+						continue
+					}
+					at(i, v.Mut, v.Class+":"+n.Local, func(m *xmltree.Node) { setDate(m, a, v.Val) })
+				}
 			}
 		}
 		// enumerations
@@ -407,9 +418,27 @@ func boundaryMutants(sd seedDoc) []Body {
 	}
 	switch sd.Fam {
 	case "propfind":
+		// more than one of allprop / propname / prop (RFC 4918 14.20 allows
+		// one): the statement names exclusive "filter or selection elements"
+		// without saying which; left open, a server error is a finding
+		for _, sel := range [][]*xmltree.Node{
+			{el(nsD, "allprop"), el(nsD, "propname")},
+			{el(nsD, "propname"), el(nsD, "allprop")},
+			{el(nsD, "prop", el(nsD, "getetag")), el(nsD, "allprop")},
+			{el(nsD, "allprop"), el(nsD, "prop", el(nsD, "getetag"))},
+			{el(nsD, "prop", el(nsD, "getetag")), el(nsD, "propname")},
+			{el(nsD, "allprop"), el(nsD, "allprop")},
+			{el(nsD, "propname"), el(nsD, "propname")},
+			{el(nsD, "prop", el(nsD, "getetag")), el(nsD, "prop", el(nsD, "displayname"))},
+			{el(nsD, "allprop"), el(nsD, "propname"), el(nsD, "prop", el(nsD, "getetag"))},
+			{el(nsD, "include", el(nsD, "getetag")), el(nsD, "propname")},
+		} {
+			t := el(nsD, "propfind", sel...)
+			l = append(l, Body{Data: render(t, false), Doc: sd.Fam, Mut: "selection-twice", Root: rootName(t), Quest: "exclusive:selection elements"})
+		}
 		t := sd.Tree.Clone()
 		t.Add(el(nsD, "allprop"), el(nsD, "propname"))
-		mk(t, "allprop+propname")
+		l = append(l, Body{Data: render(t, false), Doc: sd.Fam, Mut: "allprop+propname", Root: rootName(t), Quest: "exclusive:selection elements"})
 		mk(el(nsD, "propfind"), "propfind-empty")
 		mk(el(nsD, "propfind", el(nsD, "prop")), "propfind-empty-prop")
 		mk(el(nsD, "propfind", el(nsD, "prop", txt("text only"))), "propfind-prop-text")
@@ -433,7 +462,9 @@ func boundaryMutants(sd seedDoc) []Body {
 		}
 		mk(t, "limit-empty")
 	case "calendar-query", "calendar-multiget":
-		for _, v := range []string{"20241301T000000Z", "20240230T000000Z", "20240101T250000Z", "00000101T000000Z", "99991231T235959Z", " 20240101T000000Z"} {
+		// (values of the right shape that name no instant - month 13, 30
+		// February, hour 25 - are invalid dates: see dateMutants)
+		for _, v := range []string{"00000101T000000Z", "99991231T235959Z", " 20240101T000000Z", "20240229T235959Z", "20161231T235960Z"} {
 			t := sd.Tree.Clone()
 			for _, n := range elems(t) {
 				if n.Is(nsC, "time-range") || n.Is(nsC, "expand") {
